@@ -549,9 +549,11 @@ def loader_validation(ctx, ck):
                     vb.loops()
                 finally:
                     mir.Walker.AUTO_INLINE = False
-                for f, kind, _ in pairwise_checks(ctx, vb, lambda t: t == T("param", 1, vb.dbg.get(1, "")), strict=True):
-                    if kind == "err":
-                        vf.add(f)
+                # (... and as compiled: a helper that answers "is some key repeated?" for one side is recognised as such)
+                for vb_ in (vb, ctx.body(calls[0].a)):
+                    for f, kind, _ in pairwise_checks(ctx, vb_, lambda t, vb_=vb_: t == T("param", 1, vb_.dbg.get(1, "")), strict=True):
+                        if kind == "err":
+                            vf.add(f)
             # the Err leaves convert
             brk = [q for q in il.break_paths if q.outcome[0] == "return" and isinstance(q.outcome[1], tuple) and q.outcome[1][0] == "from_residual"]
             if okbody and brk:
